@@ -300,7 +300,7 @@ func main() {
 		h.ReplayReport()
 	}
 	for i, e := range entries {
-		if !h.Mine(i) {
+		if !h.Mine(i) || e.Origin == "crafted" {
 			continue
 		}
 		c := Case{Entry: e.Name}
